@@ -129,6 +129,19 @@ func c33NewWorld(base string) *c33World {
 			t.hashes[k] = h.String()
 			w.label[t.hashes[k]] = fmt.Sprintf("%s@%d", slot, k)
 		}
+		if i%2 == 1 {
+			// every second template has an origin remote on a host zoekt has no URL templates for (deriving
+			// templates from it fails; the repository keeps the name the command gave it), and one on a
+			// known host (templates are derived, the name is still the root-relative one)
+			url := "https://gitlab.example.com/group/proj" + fmt.Sprint(i) + ".git"
+			if i%4 == 3 {
+				url = "https://github.com/example/proj" + fmt.Sprint(i) + ".git"
+			}
+			cfgPath := filepath.Join(wt, ".git", "config")
+			cfg, err := os.ReadFile(cfgPath)
+			c33Must(err)
+			c33Must(os.WriteFile(cfgPath, append(cfg, []byte("[remote \"origin\"]\n\turl = "+url+"\n\tfetch = +refs/heads/*:refs/remotes/origin/*\n")...), 0o644))
+		}
 		head, err := os.ReadFile(filepath.Join(wt, ".git", "HEAD"))
 		c33Must(err)
 		t.ref = strings.TrimSpace(strings.TrimPrefix(string(head), "ref: "))
